@@ -130,6 +130,10 @@ SW_Evals(o)        == o.dEvals = cfg.np
 ME_Slots(o) == o.slots = cur
 ME_Calls(o) == o.calls = calls + o.dEvals
 ME_Swept(o) == nsw >= 1
+\* documented behaviour beyond the listed properties: the kernel reports the number of sweeps it made, and that number
+\* lies between n_steps * n_dim and n_max_steps * n_dim (adaptive step count)
+ME_Steps(o)       == o.steps = nsw
+ME_SweepBounds(o) == nsw >= cfg.minSweeps /\ nsw <= cfg.maxSweeps
 
 \* ---- Commit.  o = [batch, histLen, keyLens, prefixSame]
 CM_Append(o)     == o.histLen = Len(hist) + 1 /\ o.batch = [i \in DOMAIN cur |-> cur[i].rec]
@@ -158,7 +162,8 @@ MP_Clauses(o) == [MP_Count |-> MP_Count(o), MP_Coherent |-> MP_Coherent(o), MP_N
                   MP_Calls |-> MP_Calls(o), MP_Evals |-> MP_Evals(o), MP_LogzHull |-> MP_LogzHull(o)]
 MB_Clauses(o) == [MB_SameSlots |-> MB_SameSlots(o), MB_Labels |-> MB_Labels(o), MB_ModesOK |-> MB_ModesOK(o)]
 SW_Clauses(o) == [SW_PropCoherent |-> SW_PropCoherent(o), SW_Update |-> SW_Update(o), SW_Evals |-> SW_Evals(o)]
-ME_Clauses(o) == [ME_Slots |-> ME_Slots(o), ME_Calls |-> ME_Calls(o), ME_Swept |-> ME_Swept(o)]
+ME_Clauses(o) == [ME_Slots |-> ME_Slots(o), ME_Calls |-> ME_Calls(o), ME_Swept |-> ME_Swept(o),
+                  ME_Steps |-> ME_Steps(o), ME_SweepBounds |-> ME_SweepBounds(o)]
 CM_Clauses(o) == [CM_Append |-> CM_Append(o), CM_OnePerKey |-> CM_OnePerKey(o), CM_PrefixSame |-> CM_PrefixSame(o),
                   CM_Coherent |-> CM_Coherent(o), CM_NoInf |-> CM_NoInf(o), CallsExact |-> calls = evals]
 TM_Clauses(o) == [TM_NearOne |-> TM_NearOne(o), TM_ESS |-> TM_ESS(o), TM_Evidence |-> TM_Evidence(o)]
